@@ -5,7 +5,7 @@ import phys
 EXTRA_COQ_FILES = ('GenFacts/ConstantsOK.v',)
 RULE = ('S1: every (capacity, body length) with capacity even 12..64 and length 0..4*cap+14, plus lengths k*cap+d (|d|<=13, k<=3) '
         'for capacities 100, 1000, 8184, 16376; S2: seeded random synthetic record lists written through DLISWriter under '
-        'accepted record lengths 20..16384 (thorough: every accepted even length once); S3: real DLISFile writes. '
+        'accepted record lengths 20..16384 (thorough: every accepted even length once); S3: real DLISFile writes, the record length given to the constructor, assigned to the label afterwards, or changed between two writes (the strict reader is given the length the label holds at the write). '
         'Distinct by (capacity/record length, body lengths). Every implementation output is parsed by the strict framing reader.')
 ASSUMPTIONS = ['str(int) for the label fields and open()/write() are CPython (trusted)']
 PARTIAL = ''
